@@ -37,9 +37,13 @@ def records_hook_tuple(model, f, node, g, seen=None):
                 seen.add(m.qualname)
                 gm = cfg_of(m)
                 hits = [n for n in gm.nodes if n.kind not in ('entry', 'exit', 'xexit', 'def') and records_hook_tuple(model, m, n, gm, seen)]
-                # on every instrumented path of the helper
+                # on every instrumented path of the helper (path-sensitive: with self.instrumented True, every way through it passes a recording node)
                 if hits:
-                    return True
+                    from sa.boolflow import simulate
+                    selfn_ = m.params[0]
+                    res_ = simulate(gm, gm.entry, {gm.exit}, {'=' + selfn_ + '.instrumented': True}, track=set(hits), watch={selfn_ + '.instrumented'}, fnode=m.node, params=m.params)
+                    if res_ and all(any(h_ in vis for h_ in hits) for stop, env_, vis in res_ if env_.get('=' + selfn_ + '.instrumented') is True):
+                        return True
     return False
 
 
